@@ -1,3 +1,4 @@
+import PokerVerif.Lemmas.TBGidx
 import PokerVerif.Lemmas.TBLedger
 import PokerVerif.Lemmas.TBOpen
 import PokerVerif.Lemmas.TBIndex
@@ -206,6 +207,24 @@ theorem C02_hand_list_reachable_partial (cfg : Meta) (b : Blind) (evs : List Eve
   let w := C02_hand_list (run (create cfg b) evs) sm hop hrule
     (run_booked _ evs (create_booked cfg b) ha).1.1 hn hstart
   ⟨w.1, w.2.1⟩
+
+/-- **C02 — … for every history**: in the table reached from `CreateTable` by *any* history of the 19 event kinds (only
+hypothesis: the recorded random seat draws are draws the seat manager could have made — `DrawsLegal`; the seat-bookkeeping
+invariant is `C03_for_every_history`), a successful open yields a hand list that names exactly the dealt-in players, nobody
+twice, and is the clockwise walk from the start seat keeping the dealt-in ones. -/
+theorem C02_hand_list_for_every_history (cfg : Meta) (b : Blind) (evs : List Event) (hl : DrawsLegal (create cfg b) evs)
+    (sm : SM.State) (hop : (openTable (run (create cfg b) evs) sm).2 = .opened)
+    (hrule : (run (create cfg b) evs).cfg.rule ≠ .shortDeck) (hn : 0 < (run (create cfg b) evs).seatMap.length)
+    (hstart : handStart { run (create cfg b) evs with sm := sm } (openTable (run (create cfg b) evs) sm).1.players ≠ -1) :
+    (∀ pi, pi ∈ (openTable (run (create cfg b) evs) sm).1.gidx ↔
+      (0 ≤ pi ∧ ∃ p, (openTable (run (create cfg b) evs) sm).1.players[pi.toNat]? = some p ∧ p.participated = true)) ∧
+    (openTable (run (create cfg b) evs) sm).1.gidx.Nodup ∧
+    (openTable (run (create cfg b) evs) sm).1.gidx =
+      (walkSeats (run (create cfg b) evs).seatMap.length
+        (handStart { run (create cfg b) evs with sm := sm } (openTable (run (create cfg b) evs) sm).1.players)).filterMap
+        (pickAt (run (create cfg b) evs).seatMap (partOf (openTable (run (create cfg b) evs) sm).1.players)) :=
+  C02_hand_list (run (create cfg b) evs) sm hop hrule
+    (run_inv3 _ evs (create_inv3 cfg b) hl).1.1.1 hn hstart
 
 -- non-vacuity of `C02_hand_list`: the state of the example history just before its first hand opens is consistent, the
 -- open succeeds, a start seat exists — and the list is the three dealt-in players clockwise from the dealer
